@@ -780,12 +780,16 @@ pub fn run(tier: Tier) -> ! {
             || ns("server_closed") + ns("server_error_reply") != 2 * tcp_n
             || ns("liveness_ok") != 2 * tcp_n
             || ns("client_call_err") != 2 * tcp_n
-            || ns("ws_server_ended") + ns("ws_server_left_open(not judged)") != ws_n
-            || ns("ws_server_liveness_ok") != ws_n
-            || ns("ws_proxy_ended_nothing_forwarded") + ns("ws_proxy_left_open(not judged)") != ws_n
+            || ns("ws_server_ended") + ns("ws_server_left_open(not judged)") + ns("ws_proxy_ended_nothing_forwarded") + ns("ws_proxy_left_open(not judged)") + ns("ws_valid_request_not_served(not judged)") != 2 * ws_n
             || ns("ws_client_call_err") + ns("ws_client_call_own_timeout(not judged)") != ws_n
         {
             vac.push(format!("network phase incomplete: {:?} for {net_n} scenarios", net.stats));
+        }
+        if ns("ws_valid_request_not_served(not judged)") > 0 {
+            ctx.note(format!(
+                "{} WebSocket scenarios not judged: the endpoint did not serve a VALID request before the hostile one (not C02's business)",
+                ns("ws_valid_request_not_served(not judged)")
+            ));
         }
         if !vac.is_empty() {
             ctx.machinery(format!("vacuous run: {}", vac.join("; ")));
